@@ -132,3 +132,63 @@ boxed_sqrt!(c20_k8_boxed_sqrt_3_near_squares, 3, {
     kani::assume(d < 3);
     from_u128((t * t + d as u64 - 1) as u128)
 });
+
+// ---------------------------------------------------------------- wider integers, nearly concrete inputs
+/// x = t^2 + d - 1 (d in 0..3) for t = 2^(4L-1) + k or t = 2^(4L) - 1 - k, k in 0..4: the roots just
+/// above 2^(BITS/2 - 1) and just below 2^(BITS/2), where the iteration count and the final
+/// correction of the Newton loop are tight.  Only 5 free bits: symex folds most of the work.
+fn near_extreme_square<const L: usize>() -> Uint<L> {
+    let k: u64 = (kani::any::<u8>() & 3) as u64;
+    let hi: bool = kani::any();
+    let t = if hi { (1u64 << (4 * L)) - 1 - k } else { (1u64 << (4 * L - 1)) + k };
+    let d: u8 = kani::any();
+    kani::assume(d < 3);
+    from_u128((t * t + d as u64 - 1) as u128)
+}
+//@ name=c20_k8_sqrt_3_extreme prop=C20,C11 tier=thorough profile=k8 funcs="Uint::sqrt,Uint::wrapping_sqrt,Uint::checked_sqrt,SquareRoot::sqrt" bound="u8 words, Uint<3>: x in {t^2-1,t^2,t^2+1}, t = 2^11 + (0..3) or 2^12 - 1 - (0..3)" free_bits=5
+sqrt_forms!(c20_k8_sqrt_3_extreme, 3, near_extreme_square());
+//@ name=c20_k8_sqrt_5_extreme prop=C20,C11 tier=thorough profile=k8 funcs="Uint::sqrt,Uint::wrapping_sqrt,Uint::checked_sqrt,SquareRoot::sqrt" bound="u8 words, Uint<5>: x in {t^2-1,t^2,t^2+1}, t = 2^19 + (0..3) or 2^20 - 1 - (0..3)" free_bits=5
+sqrt_forms!(c20_k8_sqrt_5_extreme, 5, near_extreme_square());
+//@ name=c20_k8_sqrt_7_extreme prop=C20,C11 tier=thorough profile=k8 funcs="Uint::sqrt,Uint::wrapping_sqrt,Uint::checked_sqrt,SquareRoot::sqrt" bound="u8 words, Uint<7> (BITS = 56, just below a power of two): x in {t^2-1,t^2,t^2+1}, t = 2^27 + (0..3) or 2^28 - 1 - (0..3)" free_bits=5
+sqrt_forms!(c20_k8_sqrt_7_extreme, 7, near_extreme_square());
+//@ name=c20_k8_sqrt_vartime_3_extreme prop=C20,C11,C15 tier=thorough profile=k8 funcs="Uint::sqrt_vartime,Uint::wrapping_sqrt_vartime,Uint::checked_sqrt_vartime,SquareRoot::sqrt_vartime" bound="u8 words, Uint<3>: x in {t^2-1,t^2,t^2+1}, t = 2^11 + (0..3) or 2^12 - 1 - (0..3)" free_bits=5
+sqrt_vartime_forms!(c20_k8_sqrt_vartime_3_extreme, 3, near_extreme_square());
+//@ name=c20_k8_sqrt_vartime_5_extreme prop=C20,C11,C15 tier=thorough profile=k8 funcs="Uint::sqrt_vartime,Uint::wrapping_sqrt_vartime,Uint::checked_sqrt_vartime,SquareRoot::sqrt_vartime" bound="u8 words, Uint<5>: x in {t^2-1,t^2,t^2+1}, t = 2^19 + (0..3) or 2^20 - 1 - (0..3)" free_bits=5
+sqrt_vartime_forms!(c20_k8_sqrt_vartime_5_extreme, 5, near_extreme_square());
+//@ name=c20_k8_sqrt_vartime_7_extreme prop=C20,C11,C15 tier=thorough profile=k8 funcs="Uint::sqrt_vartime,Uint::wrapping_sqrt_vartime,Uint::checked_sqrt_vartime,SquareRoot::sqrt_vartime" bound="u8 words, Uint<7>: x in {t^2-1,t^2,t^2+1}, t = 2^27 + (0..3) or 2^28 - 1 - (0..3)" free_bits=5
+sqrt_vartime_forms!(c20_k8_sqrt_vartime_7_extreme, 7, near_extreme_square());
+//@ name=c20_k8_boxed_sqrt_3_extreme prop=C20,C11,C15 tier=thorough profile=k8 funcs="BoxedUint::sqrt,BoxedUint::checked_sqrt" bound="u8 words, BoxedUint 3 limbs: x in {t^2-1,t^2,t^2+1}, t = 2^11 + (0..3) or 2^12 - 1 - (0..3); equals Uint<3>::sqrt" free_bits=5
+boxed_sqrt!(c20_k8_boxed_sqrt_3_extreme, 3, near_extreme_square());
+//@ name=c20_k8_boxed_sqrt_7_extreme prop=C20,C11,C15 tier=thorough profile=k8 funcs="BoxedUint::sqrt,BoxedUint::checked_sqrt" bound="u8 words, BoxedUint 7 limbs (BITS = 56, just below a power of two): x in {t^2-1,t^2,t^2+1}, t = 2^27 + (0..3) or 2^28 - 1 - (0..3); equals Uint<7>::sqrt" free_bits=5
+boxed_sqrt!(c20_k8_boxed_sqrt_7_extreme, 7, near_extreme_square());
+
+macro_rules! boxed_sqrt_vartime {
+    ($name:ident, $L:expr, $x:expr) => {
+        #[kani::proof]
+        #[kani::unwind(12)]
+        fn $name() {
+            const L: usize = $L;
+            let xf: Uint<L> = $x;
+            let xv = to_u64(&xf);
+            let x = boxed_from(&words_of(&xf));
+            let s = x.sqrt_vartime();
+            let mut sv: u64 = 0;
+            let mut i = 0;
+            while i < L {
+                sv |= (bword(&s, i) as u64) << (8 * i);
+                i += 1;
+            }
+            assert!(s.nlimbs() == L && is_floor_sqrt(xv, sv));
+            let w = x.wrapping_sqrt_vartime();
+            assert!(bword(&w, 0) == bword(&s, 0) && bword(&w, L - 1) == bword(&s, L - 1));
+            let c = x.checked_sqrt_vartime();
+            assert!(bool::from(c.is_some()) == (sv * sv == xv));
+            kani::cover!(xv == (sv + 1) * (sv + 1) - 1 && sv > 1);
+            core::mem::forget((x, s, w, c));
+        }
+    };
+}
+//@ name=c20_k8_boxed_sqrt_vartime_3_extreme prop=C20,C11,C15 tier=thorough profile=k8 funcs="BoxedUint::sqrt_vartime,BoxedUint::wrapping_sqrt_vartime,BoxedUint::checked_sqrt_vartime" bound="u8 words, BoxedUint 3 limbs: x in {t^2-1,t^2,t^2+1}, t = 2^11 + (0..3) or 2^12 - 1 - (0..3)" free_bits=5
+boxed_sqrt_vartime!(c20_k8_boxed_sqrt_vartime_3_extreme, 3, near_extreme_square());
+//@ name=c20_k8_boxed_sqrt_vartime_5_extreme prop=C20,C11,C15 tier=thorough profile=k8 funcs="BoxedUint::sqrt_vartime,BoxedUint::wrapping_sqrt_vartime,BoxedUint::checked_sqrt_vartime" bound="u8 words, BoxedUint 5 limbs: x in {t^2-1,t^2,t^2+1}, t = 2^19 + (0..3) or 2^20 - 1 - (0..3)" free_bits=5
+boxed_sqrt_vartime!(c20_k8_boxed_sqrt_vartime_5_extreme, 5, near_extreme_square());
